@@ -272,12 +272,10 @@ class Skel(AbstractValue):
         if name in ('startswith', 'endswith'):
             return Cond(('strtest', name, _freeze(args), id(self)))
         if name == 'format':
-            for part in self.parts:
-                if isinstance(part, Hole) and isinstance(part.value, Taint):
-                    t = part.value
-                    if any(c in t.allowed and c in t.images.get(c, c) for c in '{}'):
-                        raise Raised(ExcVal('ValueError', ('document text (%s) is used as a str.format template: braces in '
-                                                           'it are replacement fields' % t.label,)))
+            why = _template_hazard(self)
+            if why is not None:
+                raise Raised(ExcVal('ValueError', ('%s is used as a str.format template: braces in it are replacement '
+                                                   'fields' % why,)))
             return Unknown('skel-as-template')
         if name == 'encode':
             return self
@@ -308,6 +306,31 @@ class Skel(AbstractValue):
             elif isinstance(v, Skel):
                 labs.extend(v.abs_len(interp).tag[1])
         return AbsInt(('len(skel)', tuple(sorted(labs))))
+
+
+def _template_hazard(v, depth=0):
+    """What in this piece of text can contain a brace that does not come from the program's own template:
+    document text whose braces survive sanitising, or the rendered output of child tokens. None if nothing."""
+    if depth > 6:
+        return 'deeply nested text'
+    if isinstance(v, Taint):
+        if any(c in v.allowed and c in v.images.get(c, c) for c in '{}'):
+            return 'document text (%s)' % v.label
+        return None
+    if isinstance(v, Skel):
+        for part in v.parts:
+            if isinstance(part, Hole):
+                w = _template_hazard(part.value, depth + 1)
+                if w is not None:
+                    return w
+        return None
+    if isinstance(v, (str, int, float, AbsInt)) or v is None:
+        return None
+    if isinstance(v, (Markup, Inductive)) or type(v).__name__ in ('RenderChildren', 'StarOf', 'AbsSeq', 'GenVal'):
+        return 'rendered output of child tokens (%s)' % (getattr(v, 'what', None) or type(v).__name__)
+    if isinstance(v, PaddedVal):
+        return _template_hazard(v.inner, depth + 1)
+    return None
 
 
 def _hole_name(v):
